@@ -251,7 +251,7 @@ def float_exact(hist):
     return True
 
 
-def run_case(model, cfg, hist, reward_kind):
+def run_case(model, cfg, hist, reward_kind, owned=None):
     saved = AbstractContract.now
     try:
         w = World(model, cfg, reward_kind)
@@ -282,7 +282,7 @@ def run_case(model, cfg, hist, reward_kind):
             fs = compare_step(w, rec, out, val, before)
             for c, d, extra in fs:
                 fails.append((i, c, d, extra))
-            if fs or out != rec["out"] or out != "ok":
+            if out != rec["out"] or out != "ok" or (fs and (owned is None or any(f[0] in owned for f in fs))):
                 break
         else:
             for c, d, extra in end_of_episode(w, hist):
